@@ -74,6 +74,23 @@ class History:
     def count(self, what: str) -> None:
         self.ops[what] = self.ops.get(what, 0) + 1
 
+    def attach_transcripts(self, limit: int = 120) -> None:
+        import os
+        limit = int(os.environ.get("VF_TRANSCRIPT", limit))
+        """Put the merged, step-ordered wire transcript into the first
+        violation's witness (for hand reproduction)."""
+        if not self.violations:
+            return
+        lines: list[tuple[int, int, str]] = []
+        for s in self.sessions:
+            for k, (step, d, data) in enumerate(s.conn.transcript):
+                txt = repr(data if len(data) <= 200 else data[:200] + b'...')
+                lines.append((step, k, '%6d %s%d %s' % (
+                    step, d, s.conn.cid, txt)))
+        lines.sort()
+        self.violations[0].setdefault('witness', {})['transcript'] = \
+            [t for _, _, t in lines][-limit:]
+
     def check_labels(self) -> int:
         """Offline: every FETCH that carried a content id must name the
         message that owns that UID."""
@@ -226,6 +243,64 @@ class Session:
         self.hist.count('move' if move else 'copy')
         return r
 
+    async def store(self, sset: bytes, uid: bool, mode: bytes, silent: bool,
+                    flags: list[bytes]) -> Result:
+        """STORE with the bookkeeping a real client does for .SILENT: it
+        assumes its own change took effect unless the server says otherwise
+        in the same response."""
+        from . import seqset
+        sh = self.shadow
+        positions: list[int] = []
+        addressed: list[int] = []
+        try:
+            if uid:
+                addressed = seqset.select_uids(sset, sh.known_uids())
+            else:
+                positions = seqset.select_seqs(sset, sh.count)
+        except ValueError:
+            pass
+        sh.told_in_cmd = set()
+        sh.told_pos_in_cmd = set()
+        self.hist.count('store')
+        r = await self.cmd((b'UID ' if uid else b'') + b'STORE ' + sset +
+                           b' ' + mode + (b'.SILENT' if silent else b'') +
+                           b' (' + b' '.join(flags) + b')')
+        if r.ok and silent and not sh.readonly:
+            fl = frozenset(f.lower() for f in flags) - {b'\\recent'}
+
+            def apply(k: int) -> None:
+                old = sh.flags[k]
+                if old is None:
+                    return
+                if mode == b'+FLAGS':
+                    sh.flags[k] = old | fl
+                elif mode == b'-FLAGS':
+                    sh.flags[k] = old - fl
+                else:
+                    sh.flags[k] = fl | (old & {b'\\recent'})
+
+            if uid and b'*' in sset and any(u is None for u in sh.uids):
+                # '*' is the highest UID in the view, which this client does
+                # not know: it cannot tell what was addressed
+                sh.flags = [None] * sh.count
+            elif uid:
+                for u in addressed:
+                    if u in sh.told_in_cmd or u not in sh.uids:
+                        continue
+                    apply(sh.uids.index(u))
+                # positions whose UID the client does not know may or may
+                # not have been addressed: their flags become unknown
+                for k, u2 in enumerate(sh.uids):
+                    if u2 is None:
+                        sh.flags[k] = None
+            else:
+                # no EXPUNGE may arrive during a non-UID STORE, so positions
+                # are stable across the command
+                for n in positions:
+                    if n <= sh.count and n not in sh.told_pos_in_cmd:
+                        apply(n - 1)
+        return r
+
     async def fetch_all(self) -> Result:
         self.hist.count('fetch_all')
         return await self.cmd(b'FETCH 1:* ' + ID_ATTRS)
@@ -234,8 +309,8 @@ class Session:
         self.hist.count('noop')
         return await self.cmd(b'NOOP')
 
-    async def idle(self, hold: int = 0, quiesce: bool = False) -> Result:
-        """IDLE, wait for the continuation, hold, DONE."""
+    async def idle_begin(self) -> bytes | None:
+        """Send IDLE and wait for the continuation request."""
         self.hist.count('idle')
         tag = self.conn.next_tag()
         conn = self.conn
@@ -246,12 +321,14 @@ class Session:
         cont = await conn.wait_cont()
         if cont is None:
             self.failed = 'closed-in-idle'
-            return Result(tag, b'', closed=True)
-        if quiesce:
-            await conn.loop.quiescent()    # type: ignore[attr-defined]
-        await conn.yields(hold)
+            return None
+        return tag
+
+    async def idle_end(self, tag: bytes, done: bytes = b'DONE\r\n') \
+            -> Result:
+        conn = self.conn
         # everything from here to the tagged line is collected by command()
-        r = await conn.command(tag, [b'DONE\r\n'], delay=False)
+        r = await conn.command(tag, [done], delay=False)
         conn.in_flight = None
         self.results.append(r)
         self._harvest()
@@ -259,6 +336,16 @@ class Session:
             self.failed = 'closed-in-idle'
         self.hist.order.append((conn.cid, b'IDLE'))
         return r
+
+    async def idle(self, hold: int = 0, quiesce: bool = False) -> Result:
+        """IDLE, wait for the continuation, hold, DONE."""
+        tag = await self.idle_begin()
+        if tag is None:
+            return Result(b'', b'', closed=True)
+        if quiesce:
+            await self.conn.loop.quiescent()    # type: ignore[attr-defined]
+        await self.conn.yields(hold)
+        return await self.idle_end(tag)
 
     # -- random program step --------------------------------------------------
 
@@ -325,10 +412,7 @@ class Session:
             if rng.random() < 0.5 and b'\\Deleted' not in fl and \
                     mode != b'-FLAGS':
                 fl[0] = b'\\Deleted'
-            hist.count('store')
-            await self.cmd((b'UID ' if uid else b'') + b'STORE ' + sset +
-                           b' ' + mode + (b'.SILENT' if silent else b'') +
-                           b' (' + b' '.join(fl) + b')')
+            await self.store(sset, uid, mode, silent, fl)
         elif op == 'expunge':
             hist.count('expunge')
             before = set(self.shadow.known_uids())
